@@ -162,7 +162,7 @@ func runC26(c *fw.Ctx) {
 	c.Bound("entry_names", names)
 	c.Bound("child_names", childNames)
 	c.Bound("symlink_targets", targets)
-	c.SetRule("trees written raw (bypassing go-git's encoder): every top-level name x kind {absent, file, symlink to each target, gitlink, directory holding each child name as file or symlink, directory with a deep path}; single commits and two-commit sequences in which one top-level name changes kind (symlink <-> directory, anything <-> absent); x pre-planted worktree state (a -> /outside, a -> .git, a -> a FILE outside or in .git, a directory named like an alias of .git) x worktree swapped between the two checkouts (directory replaced by a link, at the top or one level down) x protectNTFS/protectHFS; scripts: force = Checkout(force), Reset(hard), Status, Add, Move, Remove, Clean, Restore; merge = the same commits through non-forced Checkout, Reset merge/keep/mixed, Reset with Files (the resetWorktree path); pick = CherryPick theirs/ours; glob = AddGlob, AddWithOptions(All), RemoveGlob, Clean(no Dir); submodule pass = .gitmodules {name x path} x planted/swapped links: Submodules, Init, Repository, Status, Update(NoFetch) and Storer.Module on every name; osfs pass = a subset on a real directory (osfs.BoundOS, the os.Root bulk-checkout path) judged by sentinels; oracle = the complete mcfs journal by view: every call made through the worktree filesystem resolves (after symlink resolution) under /wt and not inside /wt/.git nor inside a first-level name that the configured protections treat as .git (independent alias classifier); every call made through the storage filesystem resolves under /wt/.git, a submodule's storage under /wt/.git/modules; sentinel files byte-identical; distinct = (script, outcome, escaped-path count)")
+	c.SetRule("trees written raw (bypassing go-git's encoder): every top-level name x kind {absent, file, symlink to each target, gitlink, directory holding each child name as file or symlink, directory with a deep path}; single commits and two-commit sequences in which one top-level name changes kind (symlink <-> directory, anything <-> absent); x pre-planted worktree state (a -> /outside, a -> .git, a -> a FILE outside or in .git, a directory named like an alias of .git, a nested repository a/.git below an entry that goes away or changes kind) x worktree swapped between the two checkouts (directory replaced by a link, at the top or one level down) x protectNTFS/protectHFS; scripts: force = Checkout(force), Reset(hard), Status, Add, Move, Remove, Clean, Restore; merge = the same commits through non-forced Checkout, Reset merge/keep/mixed, Reset with Files (the resetWorktree path); pick = CherryPick theirs/ours; glob = AddGlob, AddWithOptions(All), RemoveGlob, Clean(no Dir); submodule pass = .gitmodules {name x path} x planted/swapped links: Submodules, Init, Repository, Status, Update(NoFetch) and Storer.Module on every name; osfs pass = a subset on a real directory (osfs.BoundOS, the os.Root bulk-checkout path) judged by sentinels; oracle = the complete mcfs journal by view: every call made through the worktree filesystem resolves (after symlink resolution) under /wt and not inside /wt/.git nor inside a first-level name that the configured protections treat as .git (independent alias classifier), and never modifies anything strictly inside a nested <dir>/.git; every call made through the storage filesystem resolves under /wt/.git, a submodule's storage under /wt/.git/modules; sentinel files byte-identical; distinct = (script, outcome, escaped-path count)")
 	c.Assume("mcfs resolves symlinks without confinement (the guards under test are go-git's own, not the OS's); mcfs is case-sensitive: a path through an alias of .git (.GIT, git~1, '.git.', HFS ignorables) counts as inside .git when the corresponding protection is configured (case/git~1: always); submodule update over the network is not driven (NoFetch)")
 	n, err := mcfs.Conformance(c.Scratch(), 2)
 	c.Must(err, "mcfs/osfs conformance")
@@ -277,6 +277,21 @@ func runC26(c *fw.Ctx) {
 			}
 		}
 	}
+	// a nested repository: the entry's directory holds a git directory of its own (an in-place submodule or a
+	// nested clone) while the entry goes away or changes kind between the two commits
+	for k1 := range kinds {
+		if k := kinds[k1].name; k != "gitlink" && k != "file" && k != "dir{x}" {
+			continue
+		}
+		for _, k2 := range []int{absent, 0} {
+			if k2 == k1 {
+				continue
+			}
+			for _, script := range []string{"force", "merge"} {
+				cases = append(cases, c26Case{"a", k1, k2, "nestedgit", "", true, false, script})
+			}
+		}
+	}
 	// the worktree is changed under go-git between two operations: the directory written by the first checkout
 	// is replaced by a link (at the top, or one level down for the deep kinds)
 	for k1 := range kinds {
@@ -340,6 +355,11 @@ func runC26(c *fw.Ctx) {
 		}
 		switch cs.planted {
 		case "":
+		case "nestedgit":
+			for _, f := range []string{"config", "HEAD", "objects/info/x"} {
+				w.WriteFile("/wt/a/.git/"+f, []byte("SENTINEL-NESTED "+f), false)
+			}
+			w.WriteFile("/wt/a/inner", []byte("inner file\n"), false)
 		case "aliasdir":
 			for _, f := range []string{"x", "config", "hooks/pre-commit", "refs/heads/main"} {
 				w.WriteFile("/wt/"+cs.name+"/"+f, []byte("seen through the alias: "+f), false)
@@ -349,6 +369,10 @@ func runC26(c *fw.Ctx) {
 		}
 		c26SetProtect(st, cs.ntfs, cs.hfs)
 		// the config sentinel is taken after our own legitimate write
+		sentinels := sentinels
+		if cs.planted == "nestedgit" {
+			sentinels = append(append([]string{}, sentinels...), "/wt/a/.git/config", "/wt/a/.git/HEAD", "/wt/a/.git/objects/info/x")
+		}
 		before := c26Sentinels(w, sentinels)
 		w.ResetJournal()
 		repo, err := git.Open(st, w.View("/wt", "wt"))
@@ -470,6 +494,9 @@ func c26Judge(w *mcfs.World, sentinels []string, before map[string]string, resul
 					esc = append(esc, fmt.Sprintf("worktree filesystem %s outside the worktree: %s %s", how, op.Kind, c26PathClass(p)))
 				} else if inGit {
 					esc = append(esc, fmt.Sprintf("worktree filesystem %s inside .git%s: %s %s", how, alias, op.Kind, c26PathClass(p)))
+				} else if op.Mutating && strings.Contains(strings.TrimPrefix(p, "/wt/"), "/.git/") {
+					// strictly inside the git directory of a nested repository (a submodule's git directory)
+					esc = append(esc, fmt.Sprintf("worktree filesystem modifies inside a nested repository's git directory: %s", op.Kind))
 				}
 			case strings.HasPrefix(view, "git/chroot:/modules"):
 				if !strings.HasPrefix(p+"/", "/wt/.git/modules/") {
